@@ -644,7 +644,8 @@ public:
         json::Array inits;
         for (auto *I : CD->inits()) if (I->isWritten()) {
           std::string nm = I->isMemberInitializer() ? I->getMember()->getNameAsString() : (I->isBaseInitializer() ? "<base>" : "<other>");
-          inits.push_back(json::Object{{"field", nm}, {"text", text(I->getInit())}});
+          std::string fty = I->isMemberInitializer() ? I->getMember()->getType().getAsString() : std::string();
+          inits.push_back(json::Object{{"field", nm}, {"text", text(I->getInit())}, {"ftype", fty}});
         }
         fn["inits"] = std::move(inits);
       }
